@@ -300,7 +300,7 @@ def run_one(h, prefix, opts):
         "solver_time": round(ctx.solver_time, 4),
         "branch_unknown": ctx.branch_unknown,
         "portfolio": ctx.portfolio,
-        "realized": ctx.realized,
+        "realized": ctx.realized + ctx.message_float_count,
         "time": round(time.time() - t0, 4),
         "inputs": final,
         "n_obs": len(ctx.observations),
